@@ -3,6 +3,7 @@ package props
 import (
 	"fmt"
 	"strconv"
+	"time"
 
 	"github.com/vicanso/pike/config"
 
@@ -251,6 +252,47 @@ func init() {
 				d = 11
 			}
 			c.runBFS("bfs-T2-store-"+kind, sys, d, nil)
+		}
+		// real time passing while the virtual clock stands: whatever pike does on timers of its own (retries, deferred writes)
+		// must not move a lifetime. A store that refuses every write, T = 2: fetched at +0, looked up at +3 after 2.5 s of
+		// real time: the request fetches again
+		if c.Want("store-writes-fail-real-time") && c.Shard == 1%c.NShards {
+			st := c.Stat("store-writes-fail-real-time", "enumeration")
+			st.Bounds = "store refusing every write x {cacheable T=2, uncacheable with a 2 s period}: fetch at +0, clock +3, 2.5 s of real time, then one request: it must fetch again"
+			for _, kind := range []string{"cacheable", "uncacheable"} {
+				cfg := env.BasicConfig(config.CacheConfig{HitForPass: "2s", Store: "fault://c04rt"})
+				fs := env.NewFaultStore()
+				fs.Menu = func(op string, key []byte) []env.Fault {
+					if op == "set" {
+						return []env.Fault{{Name: "error", Err: env.ErrInjected}}
+					}
+					return nil
+				}
+				fs.Register("fault://c04rt")
+				e := getEnv(cfg, "c04rt")
+				freshCaches(cfg)
+				vtime.Set(vtime.Base)
+				k := kind
+				e.Respond = func(oc *env.OriginCall) env.OriginResp {
+					if k == "uncacheable" {
+						return env.Uncacheable(oc, "p")
+					}
+					return env.Cacheable(oc, 2, "p")
+				}
+				e.Events()
+				r1 := e.Do(env.Req{URI: "/rt", Rid: "r1"})
+				vtime.Add(3)
+				time.Sleep(2500 * time.Millisecond)
+				r2 := e.Do(env.Req{URI: "/rt", Rid: "r2"})
+				e.Events()
+				st.Execs += 2
+				if r1.XStatus != "fetching" || r2.XStatus != "fetching" {
+					c.Violation("store-writes-fail-real-time", "label-"+r2.XStatus+"-expected-fetching", fmt.Sprintf("%s answer obtained at +0 (labels %s then %s): 3 s later, after 2.5 s of real time, the request was not a new fetch (Age %q)", kind, r1.XStatus, r2.XStatus, r2.Age), nil, map[string]interface{}{"kind": kind}, nil)
+				}
+			}
+			procEnv = nil
+			st.States, st.Transitions, st.Nontrivial = st.Execs, st.Execs, st.Execs
+			st.NOutcomes = 2
 		}
 		pre := 2
 		if c.Thorough() {
